@@ -451,7 +451,9 @@ class Lab:
                       "max_live_trade_count", "multi_order_trades"):
                 if k in s:
                     kw[k] = s[k]
-            st = Script(self, s, market_filter=mf if not stepped else {"markets": []}, name=s.get("name"), **kw)
+            if s.get("empty_filter"):
+                mf = {}
+            st = Script(self, s, market_filter=mf if (not stepped or s.get("empty_filter")) else {"markets": []}, name=s.get("name"), **kw)
             self.strategies.append(st)
             if not stepped:
                 self.fw.add_strategy(st)
@@ -471,6 +473,9 @@ class Lab:
             "now": _dt.datetime.utcnow(),
             "pt": getattr(market_book, "publish_time", None),
             "status": getattr(market_book, "status", None),
+            "market_closed": market.closed,
+            "cleared_flags": (len(market.orders_cleared), len(market.market_cleared)),
+            "book_is": market_book,
         }
         if self.snapshots:
             rec["orders"] = [snap_order(o) for o in market.blotter]
